@@ -7,7 +7,7 @@ ids=${*:-$(ls "$V/seeded")}
 out=$(mktemp -d /tmp/gpown-XXXXXX)
 echo $ids | tr ' ' '\n' | xargs -P 8 -I{} sh -c 'p=$(echo {} | cut -d- -f1); "$0/tools/tryseed.sh" "$0/seeded/{}/patch.diff" $p > "$1/{}.log" 2>&1' "$V" "$out"
 for id in $ids; do
-  rules=$(grep -E '^\s+(FAIL|UNDECIDED)' "$out/$id.log" | sed -E 's/.*\[([^]]+)\].*/\1/' | sort -u | tr '\n' ' ')
+  rules=$(grep -E '^\s+(FAIL|UNDECIDED)' "$out/$id.log" | sed -E 's/^[^[]*\[([^]]+)\].*/\1/' | sort -u | tr '\n' ' ')
   printf '%s\t%s\n' "$id" "${rules:-NONE}"
 done
 rm -rf "$out"
